@@ -3,7 +3,11 @@
 import collections
 import os
 import re
+import sys
 import vlib
+
+sys.path.insert(0, os.path.dirname(os.path.abspath(__file__)))
+import c19_params  # noqa: E402  (the generator of coq/generated/Src_c19_params.v)
 
 
 MANIFEST = dict(
@@ -15,12 +19,30 @@ MANIFEST = dict(
           "LE/LT kernel, the serialisation flags and the lookup condition are regenerated from parameter.cpp/configurable.cpp/"
           "numeric.h on every run; the extracted model (PrimFloat, bit-exact) is compared with the real library on exhaustive "
           "1- and 2-operation histories over a finite alphabet, random 6-operation histories, configurable/clone histories, "
-          "and every parameter of every id of the 11 factories; an independent oracle in the harness yields concrete inputs."),
+          "and every parameter of every id of the 11 factories; an independent oracle in the harness yields concrete inputs. "
+          "Extension (factory clause as theorems): tools/checks/c19_params.py re-parses the working tree on every run -- every "
+          "register_parameter(parameter_t::make_*(...)) call of src/ and include/ (117 records; literals read as strtod reads them, "
+          "symbolic constants through a table the harness re-checks against the compiler), the enum_string<> tables, every "
+          "constructor chain (93 classes: base classes, ::config helpers, assignments in constructor bodies, type ids of the "
+          "template solvers) and every parameter(\"name\") use with its typed read (506 use x class rows) -- into "
+          "coq/generated/Src_c19_params.v; proved about that table with the model's own make/cstep/cread: every declared default is "
+          "inside its declared domain and no make_* argument is cast undefined, every constructor chain completes without a throw "
+          "with pairwise distinct names, objects consist of source records only, every used name is registered by each most derived "
+          "class the code runs on, every typed read has the declared kind / enum table / a result type containing the declared "
+          "range and does not truncate, and (all histories) such a read never throws after any sequence of assignments. Stage "
+          "FACTTAB compares the 285 parameters the 143 factory objects of the compiled library register (names, kinds, bounds, "
+          "comparison operators, defaults bit for bit, order, type id) with the constructor chain of their dynamic class in the "
+          "extracted table; failing table entries are reported with the source record as the concrete input."),
     note=("Coq kernel; translator (16 kernels + 4 PrimFloat twins); extraction (ExtrOcamlBasic, ExtrOCamlFloats, "
           "ExtrOCamlInt63); harness + OCaml driver; std::stod is an oracle (its outcome travels with the operation); "
           "FloatAxioms (IEEE specification of PrimFloat) used to prove that the `convertible` guard makes "
           "static_cast<int64_t>(double) defined; UB probe under -fsanitize=float-cast-overflow gates on the assignment path; "
-          "construction from double constants (make_scalar_) stays outside."),
+          "construction from double constants (make_scalar_) stays outside. Extension: the source parser "
+          "tools/checks/c19_params.py (regex-based, column-0 function segmentation of the clang-formatted tree; anything it cannot "
+          "read is a generator error, never a silent skip) is tied by FACTTAB for everything a factory can return; the 26 table "
+          "objects no factory returns (abstract bases, gboost_model_t, program::solver_t, penalty/augmented solvers, ...) and the "
+          "parameter(\"name\") uses are proved about the table only; receivers the parser cannot resolve are listed in the evidence "
+          "(source_table.uses_listed_not_checked); ExtrOcamlString added to the extraction."),
     technique="Coq proof over a translated+extracted model, exhaustive + random differential correspondence, direct oracle",
     design="DESIGN.md section 2, C19")
 
@@ -71,10 +93,22 @@ def coq_side():
         gen_float_twin()
     except vlib.CheckError as ex:
         twin_err = str(ex)
+    # extension: the parameter table (records, per-class constructor chains, parameter("name") uses) re-parsed from the tree
+    scan, tab_err = None, None
+    try:
+        vlib.coq_setup()
+        scan = c19_params.generate()
+    except vlib.CheckError as ex:
+        tab_err = str(ex)
     cres = vlib.coq_check("C19", targets=["theories/Extract_C19.vo", "theories/Properties_C19.vo"])
     if twin_err and cres["ok"]:
         cres["ok"] = False
         cres["broken"] = "float-twin:" + twin_err
+    if tab_err:
+        cres["ok"] = False
+        cres["broken"] = "param-table-generator:" + tab_err
+        cres["log"] = tab_err + "\n" + cres.get("log", "")
+    cres["scan"] = scan
     return cres
 
 
@@ -172,6 +206,8 @@ def run(tier, replay=None):
     if drv:
         rc2, mout = vlib.sh([drv], input="\n".join(proto) + "\n", timeout=3000)
         for l in mout.split("\n"):
+            if l.startswith("MISMATCH FACTTAB"):
+                continue                                   # handled by the FACTTAB stage below
             if l.startswith(("MISMATCH", "PROPFAIL")):
                 mism.append(l)
             elif l.startswith("MODEL-DONE"):
@@ -192,6 +228,83 @@ def run(tier, replay=None):
                                         "meaning": "the implementation's outcome/state after this operation differs from the proved model "
                                                    "(the model is the property: accepted <=> converted value in the domain, stored as converted, "
                                                    "rejected => unchanged), so the history above is a concrete failing input"})
+    # ---- extension, stage FACTTAB: the table regenerated from the source ------------------------------------------------
+    scan = cres.get("scan")
+    facttab = {"unreached": [], "done": ""}
+    # (a) the symbolic constants of the generator vs the compiler's values
+    consts = {}
+    for l in proto:
+        if l.startswith("CONST "):
+            _, ty, rest = l.split(" ", 2)
+            key, val = rest.rsplit(" ", 1)
+            consts[key] = (ty, val)
+    const_bad = []
+    want = dict(c19_params.CONSTANTS)
+    want.update(c19_params.TYPE_FACTS)
+    for key, (ty, v) in sorted(want.items()):
+        if key not in consts:
+            if done and not key.startswith("std::numeric_limits<scalar_t>::infinity"):
+                const_bad.append("%s: not printed by the harness" % key)
+            continue
+        hty, hv = consts[key]
+        same = (hty == ty) and ((ty == "I" and int(hv) == v) or (ty == "F" and float.fromhex(hv) == v))
+        if not same:
+            const_bad.append("%s: generator %s, compiled library %s" % (key, (float.hex(v) if ty == "F" else v), hv))
+    if const_bad:
+        r.violation("const", {"kind": "the constant table of tools/checks/c19_params.py disagrees with the compiled library",
+                              "differences": const_bad}, no_input=True)
+    facttab["constants_checked"] = len([k for k in want if k in consts])
+    # (b) failing table entries and factory objects that differ from the table (driver lines)
+    if drv:
+        tabfail = [l for l in mout.split("\n") if l.startswith("TABFAIL ")]
+        factmis = [l for l in mout.split("\n") if l.startswith("MISMATCH FACTTAB")]
+        facttab["unreached"] = [l.split(" ", 1)[1] for l in mout.split("\n") if l.startswith("FACTTAB-UNREACHED ")]
+        facttab["done"] = next((l for l in mout.split("\n") if l.startswith("FACTTAB-DONE")), "")
+        for k, l in enumerate(tabfail[:4]):
+            w = l.split(" ")
+            idx = int(w[2])
+            pay = {"kind": "source table entry fails its theorem", "case": l}
+            if scan is not None and w[1] == "PARAM" and idx < len(scan.params):
+                p = scan.params[idx]
+                pay.update({"kind": "a declared default is outside its declared domain (C19_factory_defaults_in_domain fails for this record)",
+                            "source": "%s:%d  register_parameter(%s)" % (p["file"], p["line"], p["src"]),
+                            "constructor": p["owner"], "parameter": c19_params.show_parts(p["name"]),
+                            "as_compiled": l.split(" ", 4)[4] if len(w) > 4 else "",
+                            "meaning": "parameter_t::make_%s(...) runs the domain check on the default (src/parameter.cpp ::update) and throws "
+                                       "std::runtime_error: the constructor %s cannot complete, so no object of this class -- and no factory "
+                                       "that registers it -- can be built (a harness crash at factory initialisation in this run is that "
+                                       "exception)" % (p["kind"], p["owner"]),
+                            "replay": "construct the object: the constructor throws; or evaluate `param_ok` on record %d of coq/generated/Src_c19_params.v" % idx})
+            elif scan is not None and w[1] == "OBJECT" and idx < len(scan.objects):
+                o = scan.objects[idx]
+                pay.update({"kind": "the constructor chain of a class does not complete / registers a duplicate (C19_factory_objects_constructible fails)",
+                            "class": o["label"], "detail": l.split(" :: ", 1)[-1],
+                            "chain": [("register %s (%s:%d)" % (e[2], scan.params[e[1]]["file"], scan.params[e[1]]["line"])) if e[0] == "reg"
+                                      else ("assign %s = %s (%s:%d)" % (e[1], e[2], e[4], e[3])) for e in o["ops"]],
+                            "meaning": "register_parameter throws on a duplicated name, parameter(name) = v throws on an unknown name or a value "
+                                       "outside the domain: the constructor of this class cannot complete"})
+            elif w[1] == "USE":
+                pay.update({"kind": "a parameter(\"name\") use of the library's own code does not fit the declaration (C19_factory_uses_resolve fails)",
+                            "source": " ".join(w[3:]),
+                            "meaning": "the name is not registered by the class the code runs on (configurable_t::parameter throws at run time), or "
+                                       "the typed read next to it has another kind than the declaration (parameter_t::value<T>() throws), an integer "
+                                       "result type that does not contain the declared range, or it truncates a floating-point parameter"})
+                if scan is not None and idx < len(getattr(scan, "use_rows", [])):
+                    info = scan.use_rows[idx]
+                    pay.update({"code": info["code"], "function": info["function"], "evaluated_on_class": info["cls"],
+                                "name": info["name"], "typed_read": info["read"],
+                                "parameters_registered_by_that_class": info["registered"],
+                                "replay": "construct a %s and run %s: %s" % (info["cls"], info["function"], info["code"])})
+            r.violation("table-%d" % k, pay)
+        for k, l in enumerate(factmis[:3]):
+            r.violation("facttab-%d" % k, {"kind": "a factory object of the compiled library registers other parameters than the table regenerated from the "
+                                                   "source says (names, kinds, bounds, comparison operators, defaults: compared bit for bit, in order)",
+                                           "case": l, "replay_cmd": replay_cmd + " | grep -E '^(DEFAULT|FACT) '",
+                                           "meaning": "either the generator mis-reads the source (the theorems would then speak about another table than "
+                                                      "the library) or the library computes the registered values differently from the declaration; "
+                                                      "concrete input: <factory>::all().get(<id>)->parameters() vs the source record(s) named in `case`"})
+    if scan is not None:
+        facttab.update(c19_params.summary(scan))
     # UB probe (built with -fsanitize=float-cast-overflow together with the tree's src/parameter.cpp): since fix 0c6dfeb
     # every assignment of a non-convertible double must throw and src/parameter.cpp must not report any undefined
     # conversion -- both GATE.  The unguarded casts of make_scalar_ (construction from double constants,
@@ -226,7 +339,9 @@ def run(tier, replay=None):
                          "Coq primitive floats/ints = IEEE-754 binary64 / 63-bit ints of the host (PrimFloat.*, PrimInt63.*, FloatAxioms.* in Print Assumptions)",
                          "extraction: ExtrOcamlBasic, ExtrOCamlFloats, ExtrOCamlInt63 (coq-core.kernel Float64/Uint63)",
                          "std::stod / std::stoll of libstdc++ as parsing oracles (stoll additionally modelled and compared)",
-                         "ocaml/c19_driver.ml, harness/c19_param.cpp, harness/c19_ubprobe.cpp, g++ (%s build)" % variant])
+                         "ocaml/c19_driver.ml, harness/c19_param.cpp, harness/c19_ubprobe.cpp, g++ (%s build)" % variant,
+                         "tools/checks/c19_params.py (source parser -> coq/generated/Src_c19_params.v; tied by stage FACTTAB for factory objects, "
+                         "constants re-checked by the harness' CONST lines); extraction additionally uses ExtrOcamlString"])
     cov = r.coverage
     ops = collections.Counter(l.split(" ", 1)[0] for l in proto)
     cfgops = collections.Counter(l.split(" ")[2] for l in proto if l.startswith("CFG ") and len(l.split(" ")) > 2 and l.split(" ")[1].isdigit())
@@ -269,10 +384,16 @@ def run(tier, replay=None):
     cov["unproved_clauses_searched"] = [
         "std::stod is not modelled: its outcome is taken from the run (oracle); the model's std::stoll and split_pair are compared with libstdc++/an independent tokenizer on every string",
         "int64<->double conversions i2f/f2i are executable definitions over PrimFloat (no exactness theorem): compared bit-exactly with static_cast on every numeric case",
-        "factory clause (defaults in domain, type_id == registered id, clone equal + independent both ways, prototype untouched, clone behaves identically "
-        "for losses/functions): implementation-side enumeration of every id; the model side only re-checks each default with `make`",
+        "factory clause: defaults in domain / unique names / constructor-body assignments are theorems about the table regenerated from the "
+        "source and tied to the compiled library by stage FACTTAB; still implementation-side enumeration only: get(id) non-null, type_id == "
+        "registered id (FACTTAB additionally compares the statically resolved type id), clone equal + independent both ways, prototype "
+        "untouched, clone behaves identically for losses/functions",
+        "source table: the 26 objects no factory returns and all parameter(\"name\") uses are checked against the table only (no run-time "
+        "counterpart); range_ok (integer result type contains the declared range) and lossy (truncating read) are boolean checks on the "
+        "declared bounds, not lifted to all reachable values in Coq; receivers the parser cannot resolve are listed, not checked",
         "operator== of parameters and the byte-level stream format are exercised through write+read only (codec is C15's subject)"]
     cov["ub_probe"] = probe
+    cov["source_table"] = facttab
     cov["fixed_findings"] = ["fixed: 0c6dfeb static_cast<int64_t>(double) on NaN/inf/|v|>=2^63 in ::update (was UB; on x86-64 INT64_MIN was accepted "
                              "by domains containing it): now rejected; gated by the harness oracle, the model and the UB probe"]
     r.assumptions = ["the only undefined conversions left are outside the assignment path: make_integer*/make_scalar_ called with double "
